@@ -240,6 +240,7 @@ def text_not_altered(prog, chk):
 
     seen = collections.Counter()
     sites = {}
+    spliced_once = set()
     n = 0
     for b in prog.bodies.values():
         if not (b.path.startswith("svgdx::text::") or b.path.startswith("<svgdx::transform::Container as svgdx::transform::EventGen>::generate_events") or b.path.startswith("svgdx::events::InputEvent::text_string") or b.path.startswith("svgdx::events::InputEvent::cdata_string") or b.path.startswith("svgdx::events::unescaped_text")):
@@ -247,6 +248,11 @@ def text_not_altered(prog, chk):
         chk.touch(b)
         for (bb, t, c) in b.call_sites(lambda c: c.path.split("::")[-1] in TEXT_ALTERING and ("str" in c.path.lower() or "string" in c.path.lower())):
             k = (strip_closures(b.path), c.path.split("::")[-1])
+            src_ = b.blocks[bb].get("src")
+            if src_ is not None:
+                if (tuple(src_), k[1]) in spliced_once:
+                    continue  # the same helper block spliced in at another call site
+                spliced_once.add((tuple(src_), k[1]))
             seen[k[1]] += 1
             sites.setdefault(k[1], []).append((b, bb, t))
             n += 1
